@@ -29,6 +29,19 @@ Lca(t, a, b) ==
     /\ IsAncestorOrSelf(t, c, a) /\ IsAncestorOrSelf(t, c, b)
     /\ \A c2 \in 0 .. (NumNodes(t) - 1) :
           (IsAncestorOrSelf(t, c2, a) /\ IsAncestorOrSelf(t, c2, b)) => IsAncestorOrSelf(t, c2, c)
+(* the same tables computed in one pass (deep trees: the recursive SpanOf / Flatten above are cubic on a 90-leaf spine):
+   SpanSeq(t, off)[i + 1] = <<lo, hi>> of the subtree whose root has in-order index off + i *)
+RECURSIVE SpanSeq(_, _)
+SpanSeq(t, off) ==
+  IF IsLeafV(t) THEN << <<off, off>> >>
+  ELSE LET L == SpanSeq(t[2], off)
+           r == off + Len(L)
+           R == SpanSeq(t[3], r + 1)
+       IN L \o << <<off, r + Len(R)>> >> \o R
+LcaS(spans, a, b) ==
+  LET S == {c \in 1 .. Len(spans) : spans[c][1] <= a /\ a <= spans[c][2] /\ spans[c][1] <= b /\ b <= spans[c][2]}
+      w(c) == spans[c][2] - spans[c][1]
+  IN (CHOOSE c \in S : \A d \in S : w(c) <= w(d)) - 1
 VarIndex(t, v) == CHOOSE i \in 0 .. (NumNodes(t) - 1) : SubAt(t, i) = <<"leaf", v>>
 NoRepeatedLeaf(t) == Cardinality(VVars(t)) = NumLeaves(t)
 =============================================================================
